@@ -25,7 +25,8 @@ RULE = ("strings (as raw-string contents and as member names) and JSON values (a
         "string of length <= 4 over {\\, ', `, \", a}. The checker spells each value itself, evaluates the spelling with the implementation "
         "and compares with the value; malformed quoted forms must be rejected. Non-trivial = distinct value containing a delimiter or backslash.")
 
-ALPH = ["\\", "\\", "'", "`", '"', "a", "b", " ", "é", "😀", "\n", "\t", "\x01", "u", "0", "[", "{", ":", ","]
+ALPH = ["\\", "\\", "'", "`", '"', "a", "b", " ", "é", "😀", "\n", "\t", "\x01", "u", "0", "[", "{", ":", ",",
+        "\r", "\r\n", "\n\r", "\x00", "\x7f", "\u0301", "\u200b", "\ufeff", "\x0c", "\u2028", "\U0010ffff", "n", "\\n"]
 
 
 def raw_spellable(s):
@@ -96,8 +97,13 @@ def run(ctx):
         v = rnd_value(rng, rng.choice([0, 1, 2, 3]))
         text = json.dumps(v, ensure_ascii=rng.random() < 0.3, separators=rng.choice([(",", ":"), (", ", ": ")]))
         cases.append(("literal", lit_spell(text), "n", G.json_to_enc(v)))
-    for ident in G.IDENTS + ["_", "a1_B", "Z9"]:
+    # names that look like something else: JSON keywords, builtin names, operator words — an unquoted identifier is always a member name
+    for ident in G.IDENTS + ["_", "a1_B", "Z9", "null", "true", "false", "and", "or", "not", "NaN", "Infinity", "e1", "E", "_0", "__proto__"] + G.BUILTINS:
         cases.append(("unquoted", ident, E.dump({ident: E.Num("u7"), ident + "x": E.Num("u0"), "x" + ident: E.Num("u1")}), "u7"))
+        cases.append(("unquoted", "a." + ident, E.dump({"a": {ident: E.Num("u7"), ident + "x": E.Num("u0")}}), "u7"))
+        cases.append(("unquoted", "[*]." + ident + "|[0]", E.dump([{ident: E.Num("u7")}]), "u7"))
+        cases.append(("unquoted", "[?" + ident + " == `7`] | length(@)", E.dump([{ident: E.Num("u7")}, {ident + "x": E.Num("u7")}]), "u1"))
+        cases.append(("unquoted", "{" + ident + ": " + ident + "}." + ident, E.dump({ident: E.Num("u7")}), "u7"))
     for bad in ["'abc", "'a\\'", "`1", "`{`", "`[1,]`", "`tru`", '"abc', '"\\ud800"', '"\\x"', '"a\nb"', '"\x01"', "`\"\\ud800\"`", "``", "`1 2`",
                 '"a"(@)', "a.'b'"]:
         cases.append(("malformed", bad, "{ }", None))
